@@ -86,6 +86,21 @@ def findings():
           "after q_0 although the Krylov space is not exhausted (zero second column, A Q[:, :m] = Q H fails; gmres stalls at relative residual 0.14)",
           absclip, "arnoldi(Dense(1e-6*[[2,1],[1,3]]), [1,1], max_iters=2, tol=1e-6)")
 
+    def startdtype():
+        S = np.array([[2., 1., 0.], [1., 3., 1.], [0., 1., 4.]])
+        b = np.array([1 + 2j, 2 - 1j, 3j])
+        import warnings
+        with warnings.catch_warnings():
+            warnings.simplefilter("ignore")
+            Q, H, _ = arnoldi(ops.Dense(S), b, max_iters=2)
+        Q = np.asarray(Q.to_dense())
+        err = float(np.abs(Q[:, 0] - b / np.linalg.norm(b)).max())
+        return err > 1e-8, f"Q dtype {Q.dtype}; max|Q[:,0] - v/||v||| = {err:.3g}"
+    probe("arnoldi_start_dtype_cast",
+          "arnoldi allocates its basis and H in the operator's dtype: a complex start vector on a real operator loses its imaginary part "
+          "(a float64 start vector on a float32 operator is rounded to float32), so the first column is not v/||v|| and the factorisation is that of another vector",
+          startdtype, "arnoldi(Dense([[2,1,0],[1,3,1],[0,1,4]]), [1+2j,2-1j,3j], max_iters=2)")
+
     def batch():
         w, U = np.linalg.eigh(S5)
         V = np.stack([np.array([1., -1., 2., 0.5, 1.5]), U[:, 0] + U[:, 1]], 1)
@@ -167,6 +182,12 @@ def run(ctx):
         avoided["small_scale"] = len(small)
         small = []
     cases += small
+    # start vector of a wider dtype than the operator (complex on real, float64 on float32): region of arnoldi_start_dtype_cast
+    mixedt = [L.gen_mixed_dtype(ctx.rng, nmax=min(nmax, 10)) for _ in range(ctx.budget(40, 240))]
+    if "arnoldi_start_dtype_cast" in present:
+        avoided["mixed_dtype"] = len(mixedt)
+        mixedt = []
+    cases += mixedt
     big = []
     for _ in range(ctx.budget(10, 50)):
         c = L.gen_case(ctx.rng, present, nmax=12, force=dict(n=int(ctx.rng.choice([30, 64, 100, 200])), kind="dense"))
